@@ -26,13 +26,13 @@ CHECKS = {
    text="Every attribute used on a value the code itself treats as a tree node resolves on the real node classes (or is assigned somewhere on nodes): the defect class 'method renamed away'. Three call sites fail and are recorded as known findings. Each pass is driven directly on enumerated inputs by the bounded stand-in; fixed-point progress is not proved.",
    note="Receiver typing is a conservative dataflow (untyped receivers generate no obligation)."),
  "C07": dict(cat="exploration", tech="bounded run-time contract only (no contract within the verifier's reach expresses the property)", ref="3/C07",
-   text="BOUNDED stand-in, not a proof: clean_all keeps words, order, section / list-item nesting / reference and tables on generated ordinary documents.",
+   text="BOUNDED stand-in, not a proof: clean_all keeps words, order, section / list-item nesting / reference and tables on generated ordinary documents, plus a family of hand-picked shapes inside the property's space (bare-link-only sections, tall cells, references in both orders, repeated links, captions); four of those shapes are recorded known findings.",
    note="Nothing is proved."),
  "C09": dict(cat="proof", tech=T + B, ref="3/C09",
    text="Proved: get_uniq builds the marker of the recognisers' shape and registers the replacement, marker format injective in (name, counter); _repl_to_uniq keeps the body verbatim (nowiki restores to its body, others to the complete match); _repl_from_uniq restores known markers and leaves unknown ones; ParseUniq.create_nowiki/pre/math/source/timeline carry the body verbatim (entity decoding only) and never call parse_txt/parseAndExpand.",
    note="The regular expressions replace_tags / SPLIT_PATTERN are outside SMT: bounded only."),
  "C10": dict(cat="exploration", tech="bounded run-time contract only (generated C++ scanner, no C/C++ verifier installed)", ref="3/C10",
-   text="BOUNDED stand-in, not a proof: tiling contract on utoken.scan exhaustively over all sequences of <= 3 (quick) / 4 (thorough) lexemes plus random longer strings.",
+   text="BOUNDED stand-in, not a proof: tiling contract on utoken.scan exhaustively over all sequences of <= 3 (quick) / 4 (thorough) lexemes, deep sequences over small blank / newline alphabets (line structure), plus random longer strings.",
    note="Nothing is proved."),
  "C11": dict(cat="proof", tech=T + "; static data-flow obligation", ref="3/C11",
    text="Proved (unbounded, with loop invariants): split_blocks concatenates back to the list with blocks of 1..limit entries and terminates for limit >= 1; get_block removes exactly the returned block; enqueue_missing makes scheduled the union and enqueues each new item exactly once. Static + run-time contract: _lookup_contributors stores the authors of the titles it requested. get_contributors/merge_data/get_authors store exactly the reported non-bot names and the anonymous count for any chunking of the answer. handle_new_basepath loses no (title, url) registration across its greenlet switch. Closure and termination of the greenlet fan-out are NOT covered.",
@@ -44,19 +44,19 @@ CHECKS = {
    text="Proved: MetabookObject._json returns type + exactly the public non-None attributes; static: sort_keys dump, checksum = sha256(dumps), object_hook table covers every metabook class, per-instance deep copy of defaults, reads-frame of make_collection_id. Round trip / fixed point / id invariance on generated metabooks are bounded.",
    note="json and sha256 are trusted library contracts; MetabookObject.__init__ (reflection) is not under contract."),
  "C14": dict(cat="proof", tech=T + " (lemmas over the record format and the file-name code), static ties to the code" + B, ref="3/C14",
-   text="Proved as lemmas: a record contains no spurious separator and splits back into header and text; the per-character code of fs_escape is prefix-free and the induction step of injectivity holds; static: both sides use the same separator literal and fs_escape. The composition write -> zip -> read (newest revision per title, spellings) is bounded.",
+   text="Proved as lemmas: a record contains no spurious separator and splits back into header and text; the per-character code of fs_escape is prefix-free and the induction step of injectivity holds; static: both sides use the same separator literal and fs_escape. fs_escape's loop appends exactly the code of each character (loop contract replacing a text match); NuWiki._get_page by title consults the redirect table first. The composition write -> zip -> read (newest revision per title, spellings, stored redirect stubs) is bounded.",
    note="Known finding kept out of the lemma: texts starting with form feed + ' --page-- '."),
  "C15": dict(cat="proof", tech=T + " with a ghost file system" + B, ref="3/C15",
    text="extract_member/extractall verified for all member names and destinations: every FS effect lies under the destination, rejected members leave no effect; extractall is checked against extract_member's contract through a loop invariant.",
    note="Trusted: POSIX os.path join/normpath/abspath/dirname contracts (re-validated against posixpath on the bounded domain every run); no symlinks in a fresh destination."),
  "C16": dict(cat="proof", tech=T + ": inductive invariant over the atomic (between-yield) segments of the real gevent code" + B, ref="3/C16",
-   text="Every atomic segment of qs/jobs.py / qs/qserve.py (push, pushjob, rpc_qpull before/after the yield and on GreenletExit, rpc_qfinish, rpc_qkill, shutdown, handletimeouts, dropdead), started in any state satisfying the invariant 'every known unfinished job is in exactly one place', ends in such a state; pushjob is verified against an exact transition contract that its callers use. Holds for every schedule because control changes hands only at the yield.",
+   text="Every atomic segment of qs/jobs.py / qs/qserve.py (push, pushjob, rpc_qpull before/after the yield and on GreenletExit, rpc_qfinish, rpc_qkill, shutdown, handletimeouts, dropdead), started in any state satisfying the invariant 'every known unfinished job is in exactly one place', ends in such a state; rpcserver.handle_client reaches the request handler's shutdown() (the re-queueing of a dropped connection's jobs) on every exit incl. I/O errors; pushjob is verified against an exact transition contract that its callers use. Holds for every schedule because control changes hands only at the yield.",
    note="Trusted: cooperative scheduling, heapq/min/random.choice/gevent contracts on abstract views. Rely of the suspended puller = closure of per-segment guarantees that are themselves obligations."),
  "C17": dict(cat="proof", tech=T + B, ref="3/C17",
    text="Proved: job order = (priority, serial) lexicographic and strict total; _mark_finished / finishjob finality and exactly-one-counter; pop returns an unfinished job of a requested channel that is minimal among candidates; add under an existing id changes nothing; shutdown re-queues only unfinished jobs. The job a *resumed* puller receives can be finished: known finding.",
    note="As C16; _preenall's iteration is assumed (its body _preenjobq is verified)."),
  "C18": dict(cat="proof", tech=T + B, ref="3/C18",
-   text="job and workq __getstate__/__setstate__ verified from every state satisfying the invariant: fields preserved, fresh event set iff done, every unfinished job queued exactly once with its timeout, finished jobs registered, counter restored, invariant re-established.",
+   text="job and workq __getstate__/__setstate__ verified from every state satisfying the invariant: fields preserved, fresh event set iff done, every unfinished job queued exactly once with its timeout, finished jobs registered, counter restored, invariant re-established; Main.savedb always writes the state. Hand-out order after a restore is observed by the bounded stand-in.",
    note="Trusted: pickle rebuilds the graph through these methods."),
  "C19": dict(cat="proof", tech=T + "; lemmas over the job-id templates" + B, ref="3/C19",
    text="do_render_status verified as the exact function of the two job snapshots the statement describes, querying only its own job ids; job-id templates injective; download file name proved header-safe (printable ASCII, no whitespace, no delimiter).",
